@@ -15,7 +15,7 @@ Verdict ==
   IF ~T.obs.raw_ok THEN "RawUriNotAsSent"
   ELSE IF ~T.obs.method_ok THEN "RequestMethodWrong"
   ELSE IF ~T.obs.proto_ok THEN "ServerProtocolWrong"
-  ELSE IF T.obs.script # 0 THEN "ScriptNameNotEmpty"
+  ELSE IF T.obs.script # ScriptLen(T.form) THEN "ScriptNameNotAsConfigured"
   ELSE IF T.obs.path # ExpectedPath(T.form, T.t) THEN "PathInfoNotDecodedPath"
   ELSE IF T.obs.query # ExpectedQuery(T.form, T.t) THEN "QueryStringNotAsSent"
   ELSE IF \E n \in Names : VarOf(n) # ExpectedVar(T.hdrs, n) THEN "HeaderVariableWrong"
